@@ -24,12 +24,15 @@ SrcOf(shp, ax, svec, scalar) ==
         IN Ravel([idx EXCEPT ![ax + 1] = (idx[ax + 1] - s) % shp[ax + 1]], shp)]
 
 Cases1D == {[shape |-> <<len>>, axis |-> 0, scalar |-> TRUE, s |-> <<m>>] : len \in 2..9, m \in -9..9}
-Shapes2D == {<<a, b>> : a \in 2..4, b \in 2..4}
+\* 2-D shapes include a single trace (one column / one row); the shifted axis has at least two samples
+Shapes2D == {<<a, b>> : a \in 1..4, b \in 1..4}
+Axes2D(shp) == {ax \in {0, 1} : shp[ax + 1] >= 2}
 Cases2Dscalar == {[shape |-> shp, axis |-> ax, scalar |-> TRUE, s |-> <<m>>] :
                       shp \in Shapes2D, ax \in {0, 1}, m \in -3..3}
 Cases2Dvec == UNION {{[shape |-> shp, axis |-> ax, scalar |-> FALSE, s |-> sv] :
                         sv \in [1..shp[2 - ax] -> -2..2]} : shp \in Shapes2D, ax \in {0, 1}}
-RollCases == {c \in Cases1D : c.s[1] > -c.shape[1] /\ c.s[1] < c.shape[1]} \cup Cases2Dscalar \cup Cases2Dvec
+RollCases == {c \in Cases1D : c.s[1] > -c.shape[1] /\ c.s[1] < c.shape[1]}
+             \cup {c \in Cases2Dscalar \cup Cases2Dvec : c.axis \in Axes2D(c.shape)}
 
 Export ==
     /\ TLCGet("distinct") >= 0
